@@ -52,6 +52,64 @@ type Connection struct {
 	// Message queue for backpressure handling
 	messageQueue [][]byte
 	queueMu      sync.Mutex
+
+	// sendMu serialises closing the send channel against every sender, so
+	// nothing sends on a closed channel. done is closed first, to wake a
+	// sender blocked under the Block strategy.
+	sendMu     sync.RWMutex
+	sendClosed bool
+	done       chan struct{}
+	doneOnce   sync.Once
+
+	// closed is set, under roomsMu, once the hub has dropped the connection;
+	// a closed connection joins no room.
+	closed bool
+}
+
+// closeSend closes the outbound queue exactly once. Called by the hub when the
+// connection is unregistered or evicted.
+func (c *Connection) closeSend() {
+	c.doneOnce.Do(func() {
+		if c.done != nil {
+			close(c.done)
+		}
+	})
+	c.sendMu.Lock()
+	if !c.sendClosed {
+		c.sendClosed = true
+		close(c.send)
+	}
+	c.sendMu.Unlock()
+}
+
+// trySend queues a message without blocking. It reports whether the message
+// was queued; a closed or full queue drops it.
+func (c *Connection) trySend(message []byte) bool {
+	c.sendMu.RLock()
+	defer c.sendMu.RUnlock()
+	if c.sendClosed {
+		return false
+	}
+	select {
+	case c.send <- message:
+		return true
+	default:
+		return false
+	}
+}
+
+// markClosed stops the connection from joining rooms; leaveAllRooms clears its
+// own view once the hub has removed it from every room.
+func (c *Connection) markClosed() {
+	c.roomsMu.Lock()
+	c.closed = true
+	c.roomsMu.Unlock()
+}
+
+func (c *Connection) leaveAllRooms() {
+	c.roomsMu.Lock()
+	c.rooms = make(map[string]bool)
+	c.roomsMu.Unlock()
 }
 
 // RoutePattern returns the route pattern this connection matched
@@ -81,6 +139,7 @@ func NewConnection(id string, conn *websocket.Conn, hub *Hub) *Connection {
 		PathParams:   make(map[string]string),
 		lastPongTime: time.Now(),
 		messageQueue: make([][]byte, 0),
+		done:         make(chan struct{}),
 	}
 }
 
@@ -230,6 +289,12 @@ func (c *Connection) WritePump() {
 func (c *Connection) Send(message []byte) error {
 	config := c.hub.config
 
+	c.sendMu.RLock()
+	defer c.sendMu.RUnlock()
+	if c.sendClosed {
+		return ErrConnectionClosed
+	}
+
 	select {
 	case c.send <- message:
 		return nil
@@ -262,8 +327,12 @@ func (c *Connection) Send(message []byte) error {
 			fallthrough
 		default:
 			// Block until space is available or connection closes
-			c.send <- message
-			return nil
+			select {
+			case c.send <- message:
+				return nil
+			case <-c.done:
+				return ErrConnectionClosed
+			}
 		}
 	}
 }
@@ -301,9 +370,16 @@ func (c *Connection) GetData(key string) (interface{}, bool) {
 // JoinRoom adds this connection to a room
 func (c *Connection) JoinRoom(roomName string) {
 	// roomsMu is held across the membership change so that the connection's
-	// own view and the room's membership change together.
+	// own view and the room's membership change together, and so that a join
+	// racing a disconnect either happens before it (and is undone by it) or
+	// sees the connection closed.
 	c.roomsMu.Lock()
 	defer c.roomsMu.Unlock()
+
+	if c.closed {
+		log.Printf("[WS] Connection %s is closed, not joining room %s", c.ID, roomName)
+		return
+	}
 
 	// Add to room manager synchronously to ensure the room exists
 	// before any subsequent operations (like broadcast_to_room)
@@ -319,8 +395,8 @@ func (c *Connection) JoinRoom(roomName string) {
 // LeaveRoom removes this connection from a room
 func (c *Connection) LeaveRoom(roomName string) {
 	c.roomsMu.Lock()
+	defer c.roomsMu.Unlock()
 	delete(c.rooms, roomName)
-	c.roomsMu.Unlock()
 
 	// Remove from room manager synchronously
 	rm := c.hub.GetRoomManager()
